@@ -305,7 +305,9 @@ def run_combo(col, combo, ks=None):
 # ------------------------------------------------------------------ part B: observers inside the real controller
 def b_scenarios(thorough):
     """(workflow, exit labels, durations): observers whose producers live for a while and finish at different times."""
-    out = [('observer', {}, {'stage0.B': 12.0}), ('observer', {}, {'stage0.A': 6.0, 'stage0.B': 12.0}),
+    out = [('observer-2subj-rev', {}, {'stage0.S1': 20.0, 'stage0.S2': 14.0}, {'stage0.S2': 'exit'}),
+           ('observer-2subj', {}, {'stage0.S1': 14.0, 'stage0.S2': 20.0}, {'stage0.S1': 'exit'}),
+           ('observer', {}, {'stage0.B': 12.0}), ('observer', {}, {'stage0.A': 6.0, 'stage0.B': 12.0}),
            ('observer2', {}, {'stage0.P': 12.0}), ('observer2', {}, {'stage0.P': 12.0, 'stage0.Q': 30.0}),
            ('observer-2subj', {}, {'stage0.S1': 8.0, 'stage0.S2': 14.0}), ('observer-2subj', {}, {'stage0.S1': 14.0, 'stage0.S2': 8.0}),
            ('observer-2subj', {}, {'stage0.S1': 3.0, 'stage0.S2': 12.0}),
@@ -402,8 +404,11 @@ def worker(col, item, tier, seed):
 def run(ctx):
     from verif.core.runner import case_id
     bs = []
-    for wf, labels, dur in b_scenarios(ctx.thorough):
+    for item in b_scenarios(ctx.thorough):
+        wf, labels, dur = item[:3]
         sc = {'wf': wf, 'labels': labels, 'dur': dur}
+        if len(item) > 3:
+            sc['outmode'] = item[3]   # which producers write output only when their task exits
         sc['id'] = case_id(sc)
         bs.append(sc)
     ctx.count('controller_level_observer_scenarios', len(bs))
